@@ -36,6 +36,14 @@ func Replay(path string) error {
 			Uniform  string                       `json:"uniform_balance"`
 			Postings []string                     `json:"postings"`
 			Force    bool                         `json:"force"`
+			// C27 histories: the executions to run, in order, on one cached runtime
+			History []struct {
+				Vars      map[string]string            `json:"vars"`
+				Balances  map[string]map[string]string `json:"balances"`
+				Metadata  map[string]map[string]string `json:"metadata"`
+				Uniform   string                       `json:"uniform_balance"`
+				StoreSpec *c27StoreSpec                `json:"store_spec"`
+			} `json:"history"`
 		} `json:"replay"`
 	}
 	if err := json.Unmarshal(raw, &doc); err != nil {
@@ -89,6 +97,50 @@ func Replay(path string) error {
 		return nil
 	}
 	text := rp.Program
+	if len(rp.History) > 0 {
+		// one CachedParser, Parse + Execute per step, as createTransaction does with the
+		// numscript cache on
+		fmt.Printf("program:\n%s\nhistory of %d executions on the runtime of one CachedParser:\n", text, len(rp.History))
+		parser := ledgercontroller.NewCachedNumscriptParser(ledgercontroller.NewDefaultNumscriptParser(), ledgercontroller.CacheConfiguration{MaxCount: 1024})
+		for i, stp := range rp.History {
+			var mk func() *fakeStore
+			switch {
+			case stp.StoreSpec != nil:
+				mk = stp.StoreSpec.mk
+			case stp.Uniform != "":
+				mk = c27StoreSpec{Uniform: stp.Uniform}.mk
+			default:
+				e := &gen.Env{Vars: stp.Vars, Meta: stp.Metadata, Bal: map[string]map[string]*big.Int{}}
+				for a, m := range stp.Balances {
+					e.Bal[a] = map[string]*big.Int{}
+					for k, v := range m {
+						n, _ := new(big.Int).SetString(v, 10)
+						e.Bal[a][k] = n
+					}
+				}
+				if e.Meta == nil {
+					e.Meta = storeMeta()
+				}
+				mk = func() *fakeStore { return newFakeStore(e) }
+			}
+			func() {
+				defer func() {
+					if p := recover(); p != nil {
+						fmt.Printf("  %d: vars=%v balances=%v uniform=%q -> PANIC: %v\n", i, stp.Vars, stp.Balances, stp.Uniform, p)
+					}
+				}()
+				rt, err := parser.Parse(text)
+				if err != nil {
+					fmt.Printf("  %d: Parse error: %s\n", i, shortErr(err))
+					return
+				}
+				res, err := rt.Execute(context.Background(), mk(), stp.Vars)
+				class, out := c27AdapterOutcome(res, err)
+				fmt.Printf("  %d: vars=%v balances=%v uniform=%q -> %s %s (runtime %p)\n", i, stp.Vars, stp.Balances, stp.Uniform, class, out, rt)
+			}()
+		}
+		return nil
+	}
 	fmt.Printf("program:\n%s\nvars: %v\nbalances: %v\n", text, rp.Vars, rp.Balances)
 	func() {
 		defer func() {
